@@ -65,3 +65,40 @@ def run_tables(rep, prop):
                                             "print([x for x in strs if len(x) != w][:5])\nsys.exit(17 if bad else 0)\n")})
         else:
             rep.ok(full, "enumeration", (time.time() - t0) / max(1, len(seen)), "top", f"ofxtools.models:{where}")
+
+
+def run_warn_only_strings(rep, prop):
+    """C11 'bounded strings do not exceed their limit': every bounded string of every model class is declared strict
+    (Types.String with a length) - except the reviewed list of warn-only declarations (nagstring_allow.json).  The
+    converter contracts take a field's declared type as given; this obligation is about the declaration itself."""
+    import json, os
+    import ofxtools.models as m
+    from ofxtools.models.base import Aggregate
+    from ofxtools import Types
+    allow = set(json.load(open(os.path.join(os.path.dirname(os.path.dirname(os.path.abspath(__file__))), "nagstring_allow.json")))["allowed"])
+    seen, stack = set(), [Aggregate]
+    while stack:
+        c = stack.pop()
+        if c in seen:
+            continue
+        seen.add(c); stack += c.__subclasses__()
+    n = 0
+    for C in sorted(seen, key=lambda c: (c.__module__, c.__name__)):
+        for k, v in vars(C).items():
+            if isinstance(v, Types.String) and getattr(v, "length", None) is not None:
+                n += 1
+                key = f"{C.__module__}:{C.__name__}.{k}:{v.length}"
+                full = f"{prop}/table:{C.__name__}.{k}/bounded-string-is-strict"
+                if not isinstance(v, Types.NagString) or key in allow:
+                    rep.ok(full, "enumeration", 0.0, "top", f"ofxtools.models:{C.__name__}.{k}")
+                else:
+                    det = (f"{C.__name__}.{k} is declared {type(v).__name__}({v.length}): a value longer than {v.length} characters is kept and written "
+                           f"(with a warning) instead of being refused; it is not one of the reviewed warn-only declarations")
+                    rep.fail(full, "enumeration", det, 0.0, "top", f"ofxtools.models:{C.__name__}.{k}")
+                    rep.violation(full, {"class": C.__name__, "attribute": k, "declared": f"{type(v).__name__}({v.length})", "detail": det,
+                                         "python": ("import sys, warnings\nwarnings.simplefilter('ignore')\nimport importlib\nfrom ofxtools import Types\n"
+                                                    f"C = getattr(importlib.import_module({C.__module__!r}), {C.__name__!r})\nv = vars(C).get({k!r})\n"
+                                                    f"long = 'x' * ({v.length} + 1)\n"
+                                                    "try:\n    out = v.unconvert(v.convert(long))\nexcept Exception:\n    sys.exit(0)\n"
+                                                    f"sys.exit(17 if isinstance(v, Types.NagString) and len(out) > {v.length} else 0)\n")})
+    rep.extra["bounded_strings"] = n
